@@ -67,6 +67,39 @@ CLAIMS = {
         "invariant is re-established, which covers every chunk composition by induction. Linearity is a lemma over the definition.",
    note="trusted: pyvc engine; np.fft = DFT definition with uninterpreted twiddles (FFT numerics only in the bounded native run against a direct O(B^2) evaluation); firwin; linearity of finite sums",
    technique="contract-based deductive verification (loop invariant, two-state streaming invariant with ghost stream, Sum-term extensionality, modular call contract); bounded native replay"),
+ 'C01': dict(cat='proof', ref='DESIGN.md 2/C01',
+   text="Frame.add_signal's 130-line body is executed symbolically path by path: for every combination of input forms (callable / array / "
+        "scalar path and time profile, none / callable / array / scalar bandpass), bounded or not, every pixel of the returned array equals "
+        "t_profile*f_profile*bandpass at a symbolic (i,j); with integrate_path / integrate_t_profile / doppler_smearing (all combinations, "
+        "symbolic sub-sample counts, smearing loop with an inductive invariant) and with integrate_f_profile (with the time options) it equals "
+        "the documented average over grids proved equal to ts[i]+k*dt/nt and fs[j]+k*df/nf, also for a shifted time axis; wrong lengths/types "
+        "raise; profile factories have their closed forms. integrate_f_profile combined with smearing is covered by the bounded native "
+        "per-pixel evaluator only (stated).",
+   note="trusted: pyvc engine; user callables uninterpreted pointwise functions; reals for floats; numpy axioms (linspace, meshgrid, reshape, mean as Sum terms); F+S combination bounded only",
+   technique="contract-based deductive verification (path-wise symbolic execution, Sum-term extensionality, loop invariant with sum unfolding, grid lemmas); bounded native per-pixel oracle"),
+ 'C06': dict(cat='proof', ref='DESIGN.md 2/C06',
+   text="The modifies-clause of add_signal is discharged: data changes by exactly the returned signal (one in-place write of the slice), pixels "
+        "outside [b0,b1) keep their value, no attribute of the frame is rebound, axes/noise estimates/metadata/random state unchanged (also with "
+        "smearing); ranges that do not intersect the band inject nothing and raise nothing; bounded = unbounded restricted to the range; two "
+        "successive injections add the sum of the separately computed signals in either order (over the reals).",
+   note="trusted: pyvc engine (aliasing by object identity, write counters); float summation order not modelled (reals); bit-for-bit clause replayed natively (tobytes equality)",
+   technique="contract-based deductive verification (frame conditions, two-run relational lemmas); bounded native replay"),
+ 'C13': dict(cat='proof', ref='DESIGN.md 2/C13',
+   text="add_constant_signal is verified against add_signal's contract: the arguments it passes (linear path, constant time profile, profile "
+        "of the requested type and width for all five types, unit bandpass, smearing flag, smearing_subsamples = max(1, ceil(|drift|/unit))) "
+        "are call-site obligations, and the bounding box it requests provably contains every pixel within width/2 of every (smeared) signal "
+        "centre for drift of either sign or zero and any width > 0 (incl. sub-channel), both orientations; with C06's restriction lemma this "
+        "gives equality with the general injection on the support and zero elsewhere.",
+   note="trusted: pyvc engine; add_signal through its proved contract (C01/C06); wofz/exp/sinc uninterpreted",
+   technique="contract-based deductive verification (modular call-site obligations, nonlinear coverage lemma); bounded native comparison with add_signal"),
+ 'C16': dict(cat='proof', ref='DESIGN.md 2/C16',
+   text="Cadence.add_signal over a cadence of SYMBOLIC length (frames as references into a symbolic heap) carries an inductive invariant: at "
+        "each call site the frame's time axis is its own axis shifted by its start time relative to the first frame, and on normal AND "
+        "exceptional exit (user callback raising in any frame) every frame's time axis equals what it was; overwrite_times spaces consecutive "
+        "frames by exactly the slew time (sequential loop invariant). Frame.add_signal is used through its C01 contract, which is proved for "
+        "a shifted axis including the sub-sample grids.",
+   note="trusted: pyvc engine (heap model); (ts+o)-o = ts over the reals; overwrite_times assumes distinct positions hold distinct frames; consolidate is covered by the bounded native run only",
+   technique="contract-based deductive verification (loop invariants over a symbolic heap, exceptional postcondition, modular call contract); bounded native replay"),
 }
 NA_REASON = "not yet built in this session (see DESIGN.md build order)"
 
